@@ -78,6 +78,9 @@ NewHandle(m, root) ==
 
 (* --- one probe notification --- *)
 LogOne(m, e, C) ==
+  IF e.t = "P"      \* not a notification: what peek() answered inside the callback (C12: the most recent value)
+  THEN Flag(m, e.v # BLatest(m.g, Len(m.g), PA(m.hroot[GetI(m.ph, e.p)])), "C12", C.checks)
+  ELSE
   LET p == e.p
       checks == C.checks
       h == GetI(m.ph, p)
